@@ -15,6 +15,12 @@ def magic_format(d):
             return "PE"
     if d[:4] in (b"\xfe\xed\xfa\xce", b"\xce\xfa\xed\xfe", b"\xfe\xed\xfa\xcf", b"\xcf\xfa\xed\xfe", b"\xca\xfe\xba\xbe"):
         return "MachO"
+    if d[:2] == b"\x4c\x01" and len(d) >= 20:
+        return "COFF"
+    if d[:1] == b":":
+        return "HEX"
+    if d[:2] == b"S0":
+        return "SREC"
     return None
 
 
@@ -137,6 +143,22 @@ def _coff_fields(d, out):
         return
     for o, n, lab in [(0, 2, "Machine"), (2, 2, "NumberOfSections"), (8, 4, "PointerToSymbolTable"), (12, 4, "NumberOfSymbols"), (16, 2, "SizeOfOptionalHeader")]:
         out.append((o, n, "little", "coff." + lab))
+    nscns = int.from_bytes(d[2:4], "little")
+    nsyms = int.from_bytes(d[12:16], "little")
+    opt = int.from_bytes(d[16:18], "little")
+    off = 20 + opt
+    for k in range(min(nscns, 4)):
+        b = off + 40 * k
+        for o, n, lab in [(16, 4, "s_size"), (20, 4, "s_scnptr"), (24, 4, "s_relptr"), (28, 4, "s_lnnoptr"), (32, 2, "s_nreloc"), (34, 2, "s_nlnno")]:
+            if b + o + n <= len(d):
+                out.append((b + o, n, "little", "coff.sec%d.%s" % (k, lab)))
+    # (amoco reads the symbol table right after the section headers; entries are 20 bytes there)
+    sy = off + 40 * nscns
+    for k in range(min(nsyms, 4)):
+        b = sy + 20 * k
+        for o, n, lab in [(4, 4, "n_offset"), (8, 4, "n_value"), (12, 2, "n_scnum"), (17, 1, "n_numaux")]:
+            if b + o + n <= len(d):
+                out.append((b + o, n, "little", "coff.sym%d.%s" % (k, lab)))
 
 
 def locate_fields(d):
@@ -246,6 +268,38 @@ def synth_srec(nrec, seed=0):
     return ("\n".join(lines) + "\n").encode()
 
 
+def synth_coff(nscns=2, nsyms=3, opthdr=True, seed=0):
+    """a COFF object as amoco's reader lays it out: file header, optional header,
+    section headers, symbol entries (20 bytes, aux entries 44), string table, then the
+    raw data / relocations / line numbers the section headers point to"""
+    opt = struct.pack("<hhiiiIii", 0x10B, 0, 16, 8, 0, 0x1000, 0x1000, 0x2000) if opthdr else b""
+    hdr_end = 20 + len(opt) + 40 * nscns
+    syms = b""
+    for k in range(nsyms):
+        name = (b"sym%d" % k).ljust(8, b"\0") if k % 2 == 0 else struct.pack("<ii", 0, 4 + 4 * (k // 2))
+        naux = 1 if k == 0 else 0
+        ent = name + struct.pack("<IhHbB", 0x1000 + 4 * k, 1 + k % max(1, nscns), 0x20, 2, naux)
+        syms += ent.ljust(20, b"\0") + b"\0" * (44 * naux)
+    strings = b"foo\0bar\0baz\0"
+    strtab = struct.pack("<I", len(strings)) + strings
+    data_off = hdr_end + len(syms) + len(strtab)
+    secs = b""
+    blobs = b""
+    for k in range(nscns):
+        raw = bytes((seed + 5 * k + j) & 0xFF for j in range(16 if k == 0 else 8))
+        scnptr = data_off + len(blobs)
+        blobs += raw
+        nrel, nln = (1, 0) if k == 0 else (0, 0)  # (amoco cannot unpack a LINENO at all: a C14 matter)
+        relptr = data_off + len(blobs) if nrel else 0
+        blobs += struct.pack("<iiH", 4, 1, 6).ljust(12, b"\0") * nrel
+        lnptr = data_off + len(blobs) if nln else 0
+        blobs += struct.pack("<iH", 0, 1).ljust(8, b"\0") * nln
+        nm = (b".text" if k == 0 else b".data").ljust(8, b"\0")
+        secs += nm + struct.pack("<IIIiiiHHi", 0x1000 * (k + 1), 0x1000 * (k + 1), len(raw), scnptr, relptr, lnptr, nrel, nln, 0x20 if k == 0 else 0x40)
+    fh = struct.pack("<HHiiiHH", 0x14C, nscns, 0x5F000000, hdr_end, nsyms, len(opt), 0x104)
+    return fh + opt + secs + syms + strtab + blobs
+
+
 def synth_fat(n=1):
     out = b"\xca\xfe\xba\xbe" + struct.pack(">I", n)
     for k in range(n):
@@ -275,4 +329,7 @@ SYNTH["synth:fat:self1"] = synth_fat_self(1)
 SYNTH["synth:fat:self2"] = synth_fat_self(2)
 SYNTH["synth:fat:1"] = synth_fat(1)
 SYNTH["synth:fat:2"] = synth_fat(2)
+SYNTH["synth:coff:2:3"] = synth_coff(2, 3, True, 1)
+SYNTH["synth:coff:1:0"] = synth_coff(1, 0, False, 2)
+SYNTH["synth:coff:3:5"] = synth_coff(3, 5, True, 3)
 SYNTH["synth:empty"] = b""
